@@ -21,6 +21,9 @@ def run(run):
                 "default + single (thorough: pairwise) non-default parameter values; non-trivial = both sides "
                 ">=2 items and differ")
     run.assumptions = [
+        "scope: event-, frame- and note-based scores (beat, onset, tempo, key, alignment, pattern, melody, multipitch, "
+        "transcription, transcription_velocity, segment boundary detection / deviation); chord, hierarchy and the "
+        "segment labelling indices are decided by C10-C12, C17 and C16 and are not compared here",
         "small-scope hypothesis; exact dyadic/decimal lattices so that threshold comparisons are decided exactly",
         "states on which the documented definition is undefined (zero inter-beat interval, value within 1e-9 "
         "of a threshold or histogram edge) are skipped and counted (counter undefined_or_near_threshold_skipped)",
@@ -30,6 +33,8 @@ def run(run):
     ]
     for name in base.tasks():
         task = base.load(name)
+        if not generic.c04_funcs(task):
+            continue          # chord / hierarchy: owned by C10-C12 / C17 (their models are still fixture-bound there)
         if hasattr(task, "fixture_check"):
             n = task.fixture_check(run.tier)
             run.total.counters["fixture_pairs_model_conformant:%s" % name] += n
